@@ -189,7 +189,11 @@ func shardC19(c *Ctx, shard, nshards int) {
 		ts := c19Render(name, wrapped, cells)
 		c.Eval(1)
 		if len(ts) < 8 {
-			c.Violate("", fmt.Sprintf("dc-empty %s cells=%d %s: only %d triangles for a solid strictly inside the sampled box", name, cells, desc, len(ts)), cs)
+			key := ""
+			if smallUnits && name == "v2" {
+				key = c19KeySmallVertex // the same limitation: V2's absolute step sizes against a part of a few thousandths of a unit
+			}
+			c.Violate(key, fmt.Sprintf("dc-empty %s cells=%d %s: only %d triangles for a solid strictly inside the sampled box", name, cells, desc, len(ts)), cs)
 			continue
 		}
 		c.Distinct(fmt.Sprintf("%s/%s/%d/%d", name, desc, cells, i))
